@@ -12,6 +12,12 @@ R  (a) every TLC behaviour replayed on real fields (one per kind) through merge_
    under global vs front-matter setting.
 V  random longer sequences of documents with multi-field front matter, validated by
    ConfigTrace.
+Render phase (WithRender): the Sphinx parser renders a document without front matter with the
+global object itself and one with front matter with the copy; figure-md mutates the object it is
+given in place and rebinds.  TLC checks GlobalImmutable over object identity (alias / shared
+containers; DevShallowCopy regression); every behaviour is replayed as a Sphinx project whose
+conf.py records env.myst_config before every document (R-render), random longer builds are
+validated as traces (V-render); the effective configuration is observed through the rendering.
 """
 from __future__ import annotations
 
@@ -23,8 +29,8 @@ from .. import tlc
 
 META = {
     "level": "model_checking",
-    "text": "TLC checks the front-matter merge model (copy, validate on the copy, merge, assign, normalise) over validator kinds and value forms for every sequence of documents within the bound against the declarative effect rule, immutability of the global object and normalisation; behaviours are replayed on real fields through merge_file_level and real parses, the spec's acceptance table is bound to every field of the dataclass over generated value shapes and entry points, and random longer sequences are validated as traces by TLC.",
-    "note": "Bound: 2 documents x <= 2 front-matter entries over a 13-entry vocabulary (6 fields, one per validator kind, + an unknown field). Value shapes per real field: canonical, alternative spelling, wrong type, nested wrong type, null. Shapes that are only debatable readings of the documented type are not generated (bool where int is documented, tuple/set where a list is documented). Fields documented as global-only are excluded from the doctree effect equivalence. The Sphinx conf entry point shares MdParserConfig(**values) with the constructor and is covered through it.",
+    "text": "TLC checks the front-matter merge model (copy, validate on the copy, merge, assign, normalise) over validator kinds and value forms for every sequence of documents within the bound against the declarative effect rule, immutability of the global object and normalisation; behaviours are replayed on real fields through merge_file_level and real parses, the spec's acceptance table is bound to every field of the dataclass over generated value shapes and entry points, and random longer sequences are validated as traces by TLC. The Sphinx render phase (which object a document is rendered with, figure-md's in-place change and restore) is modelled with object identity and bound to real Sphinx builds that record the global configuration object before every document.",
+    "note": "Bound: 2 documents x <= 2 front-matter entries over a 13-entry vocabulary (6 fields, one per validator kind, + an unknown field); render phase: 2 (quick) / 3 (thorough) documents x (no front matter | front matter with <= 1 of 4 entries) x figure-md or not. Value shapes per real field: canonical, alternative spelling, wrong type, nested wrong type, null. Shapes that are only debatable readings of the documented type are not generated (bool where int is documented, tuple/set where a list is documented). Fields documented as global-only are excluded from the doctree effect equivalence. The Sphinx conf entry point shares MdParserConfig(**values) with the constructor and is covered through it.",
     "technique": "TLA+ spec + TLC exhaustive check; spec-behaviour replay into the code; TLC batch trace validation",
     "specs": ["Config", "ConfigTrace"],
 }
@@ -172,15 +178,15 @@ def field_table():
         elif n == "heading_anchors":
             kind = "int"
             shapes["canon"] = [0, 3, 7]
-            shapes["bad"] = ["2", None, 8, -1, [1], 2.5]
+            shapes["bad"] = ["2", None, 8, -1, [1], 2.5, 0.0, 3.0]
         elif isinstance(default, bool):
             kind = "bool"
             shapes["canon"] = [True, False]
-            shapes["bad"] = ["true", None, 1.5, [True], "no"]
+            shapes["bad"] = ["true", None, 1.5, [True], "no", 1, 0, 1.0, 0.0]       # (1 == True, but 1 is not a bool)
         elif isinstance(default, int):
             kind = "int"
             shapes["canon"] = [1, 250]
-            shapes["bad"] = ["2", None, [1], 2.5]
+            shapes["bad"] = ["2", None, [1], 2.5, float(default), 250.0]            # (200.0 == 200, but is not an int)
         elif isinstance(default, str):
             kind = "list"
             shapes["canon"] = ["a|b"]
@@ -401,6 +407,117 @@ def check_optstrings(ctx):
     return n
 
 
+
+# ------------------------------------------------------------------ the Sphinx render phase (WithRender)
+UPD_R = [("fs", ("alt", 2)), ("fs", ("bad", 1)), ("fb", ("canon", 2)), ("fb", ("bad", 1))]
+YAML_R = {("fs", ("alt", 2)): "enable_extensions: [colon_fence, tasklist]", ("fs", ("bad", 1)): "enable_extensions: [nosuch_extension]",
+          ("fb", ("canon", 2)): "footnote_transition: false", ("fb", ("bad", 1)): 'footnote_transition: "yes"'}
+CONF_R = {"myst_enable_extensions": ["deflist"], "myst_footnote_transition": True}
+BODY_R = ("Term\n: Definition\n\n:::{note}\ncolon\n:::\n\n- [ ] task\n\n<img src=\"x.png\" alt=\"a\">\n\ntext[^f]\n\n[^f]: note\n")
+FIG_R = "```{figure-md} fig-%s\n<img src=\"y.png\" alt=\"b\">\n\ncaption\n```\n\n"
+
+
+def _defs_r():
+    d = _defs()
+    d["UpdR"] = "{" + ", ".join(f'<<"{f}", {_tla_val(v)}>>' for f, v in UPD_R) + "}"
+    d["KindR"] = '[fs |-> "setc", fb |-> "bool"]'
+    return d
+
+
+def doc_text(doc, tag):
+    """doc = {upd: [(f, v)], fm, fig}"""
+    head = ""
+    if doc["fm"]:
+        lines = [YAML_R[(f, tuple(v))] for f, v in doc["upd"]]
+        head = "---\n" + ("myst:\n" + "".join(f"  {ln}\n" for ln in lines) if lines else "author: someone\n") + "---\n\n"
+    return head + (FIG_R % tag if doc["fig"] else "") + BODY_R
+
+
+def _proj_doc(tree):
+    from docutils import nodes
+    ext = set()
+    if list(tree.findall(nodes.definition_list)):
+        ext.add("deflist")
+    if any(isinstance(n, nodes.note) for n in tree.findall(nodes.Admonition)):
+        ext.add("colon_fence")
+    if any("task-list-item-checkbox" in n.astext() for n in tree.findall(nodes.raw)):
+        ext.add("tasklist")
+    if any(n.get("uri", "").endswith("x.png") for n in tree.findall(nodes.image)):
+        ext.add("html_image")
+    fs = {frozenset({"deflist"}): ["canon", 1], frozenset({"colon_fence", "tasklist"}): ["canon", 2],
+          frozenset({"deflist", "html_image"}): ["canon", 101], frozenset({"colon_fence", "tasklist", "html_image"}): ["canon", 102]
+          }.get(frozenset(ext), ["other", sorted(ext)])
+    fb = ["canon", 1] if any("footnotes" in n.get("classes", []) for n in tree.findall(nodes.transition)) else ["canon", 2]
+    fig = any(n.get("uri", "").endswith("y.png") for n in tree.findall(nodes.image))
+    return {"fs": fs, "fb": fb}, fig
+
+
+def _proj_G(snap, snap0):
+    ext = snap.get("enable_extensions")
+    fs = {("deflist",): ["canon", 1], ("deflist", "html_image"): ["canon", 101]}.get(tuple(ext) if isinstance(ext, list) else None, ["other", repr(ext)])
+    rest = all(snap[k] == snap0[k] for k in snap0 if k != "enable_extensions")
+    return {"fs": fs, "fb": ["canon", 1] if snap.get("footnote_transition") == "True" else ["other", snap.get("footnote_transition")], "rest": rest}
+
+
+def _build_r(args):
+    """one Sphinx project holding several behaviours back to back (the global object is shared by all of them)"""
+    from pathlib import Path
+    from .. import sphinx_runner as sr
+    wd, batch = args                  # batch: [(bid, [doc, ...])]
+    docs, order = {}, []
+    for bid, seq in batch:
+        for k, d in enumerate(seq):
+            name = f"b{bid:05d}x{k}"
+            docs[name] = doc_text(d, f"{bid}-{k}")
+            order.append((bid, k, name))
+    files = {f"{n}.md": t for n, t in docs.items()}
+    files["zindex.md"] = "# Index\n\n```{toctree}\n:hidden:\n\n" + "\n".join(sorted(docs)) + "\n```\n"
+    r = sr.run_project(Path(wd), files, {**CONF_R, "master_doc": "zindex"}, conf_extra=sr.SNAP_CONFIG)
+    if not r["ok"] or not r.get("data"):
+        return {"error": r["error"] or "no configuration snapshots recorded", "batch": [b for b, _ in batch]}
+    snaps = r["data"]                  # [[docname, snapshot before that document], ..., ["<end>", snapshot]]
+    names = [s[0] for s in snaps]
+    snap0 = snaps[0][1]
+    out = {}
+    for bid, k, name in order:
+        i = names.index(name)
+        before, after = snaps[i][1], snaps[i + 1][1]
+        tree = r["doctrees"].get(name)
+        eff, fig = _proj_doc(tree)
+        nw = sum(1 for w in r["warnings"] if w["tag"] == "myst.topmatter" and w["src"] and name in w["src"])
+        out.setdefault(bid, []).append({"eff": eff, "figure": fig, "warns": nw, "G": _proj_G(after, snap0),
+                                        "G_before": _proj_G(before, snap0)})
+    import shutil
+    shutil.rmtree(wd, ignore_errors=True)
+    return {"out": out}
+
+
+def run_render(ctx, seqs, leg):
+    """seqs: {bid: [doc]} -> {bid: [observation per doc]}; a behaviour that started from an already modified global
+    object (an earlier behaviour of the same project leaked) is rebuilt on its own"""
+    from ..pool import pmap
+    ids = sorted(seqs)
+    B = 25
+    batches = [(str(ctx.wd / f"sx_{leg}_{i}"), [(b, seqs[b]) for b in ids[i:i + B]]) for i in range(0, len(ids), B)]
+    res = {}
+    redo = []
+    for (wd, batch), r in zip(batches, pmap(_build_r, batches, chunksize=1)):
+        if "error" in r:
+            redo += [b for b, _ in batch]
+            continue
+        for b, obs in r["out"].items():
+            g0 = obs[0]["G_before"]
+            if g0["fs"] != ["canon", 1] or g0["fb"] != ["canon", 1] or not g0["rest"]:
+                redo.append(b)
+            else:
+                res[b] = obs
+    singles = [(str(ctx.wd / f"sx_{leg}_s{b}"), [(b, seqs[b])]) for b in redo]
+    for (wd, batch), r in zip(singles, pmap(_build_r, singles, chunksize=1)):
+        b = batch[0][0]
+        res[b] = {"error": r["error"]} if "error" in r else r["out"][b]
+    return res
+
+
 def run(ctx):
     quick = ctx.tier == "quick"
     rnd = random.Random(ctx.seed + 13)
@@ -408,14 +525,15 @@ def run(ctx):
                 "dataclass field x generated shapes x 3 entry points; 17 effect-equivalence cases; 23 docutils option strings. "
                 "V: random sequences of 3-6 documents. non-trivial = at least one accepted override")
     ctx.assumptions += ["value shapes follow the documented type (doc_type metadata / annotation); debatable shapes are not generated"]
-    consts = {"KindOf": "<-KindV", "Updates": "<-UpdV", "MaxDocs": 2, "MaxUpd": 2, "DevAssignRaw": False, "DevValidateOnGlobal": False}
+    consts = {"KindOf": "<-KindV", "Updates": "<-UpdV", "MaxDocs": 2, "MaxUpd": 2, "DevAssignRaw": False, "DevValidateOnGlobal": False,
+              "WithRender": False, "DevShallowCopy": False}
     invs = ["GlobalImmutable", "EffectRule", "Normalised", "NoLeak"]
     r = tlc.run("Config", tlc.cfg(ctx, "cf_mc.cfg", consts, invariants=invs + ["Emit", "TableOut"], properties=["GlobalNeverWritten"]),
                 wd=ctx.wd, timeout=3000, defs=_defs())
     tlc.expect_holds(r, "Config M |= S")
     ctx.add_tlc("Config_mc", r, "2 documents x <= 2 entries over 13 updates")
     rc = tlc.run("Config", tlc.cfg(ctx, "cf_cov.cfg", {**consts, "MaxDocs": 1}, invariants=invs), wd=ctx.wd, coverage=True, defs=_defs())
-    for act in ("ValidateUpdate", "Assign", "Normalise", "EndParse"):
+    for act in ("ValidateUpdate", "Assign", "Normalise", "EndMerge"):
         if rc.coverage.get(act, (0, 0))[0] == 0:
             raise tlc.MachineryFailure(f"Config: action {act} never taken (vacuous)")
     ctx.add_tlc("Config_cov", rc)
@@ -519,6 +637,97 @@ def run(ctx):
                                "observed": t["docs"][n]})
                 break
     ctx.leg("V", traces=len(traces))
+
+    # ---- the Sphinx render phase: object identity of the configuration -------------------------
+    rconsts = {"KindOf": "<-KindR", "Updates": "<-UpdR", "MaxDocs": 2 if quick else 3, "MaxUpd": 1, "DevAssignRaw": False,
+               "DevValidateOnGlobal": False, "WithRender": True, "DevShallowCopy": False}
+    rr = tlc.run("Config", tlc.cfg(ctx, "cf_render.cfg", rconsts, invariants=invs + ["Emit"], properties=["GlobalNeverWritten"]),
+                 wd=ctx.wd, timeout=3000, defs=_defs_r())
+    tlc.expect_holds(rr, "Config (render phase) M |= S")
+    ctx.add_tlc("Config_render", rr, f"{rconsts['MaxDocs']} documents x (front matter with <= 1 entry | none) x figure-md or not")
+    rcv = tlc.run("Config", tlc.cfg(ctx, "cf_render_cov.cfg", {**rconsts, "MaxDocs": 1}, invariants=invs), wd=ctx.wd, coverage=True, defs=_defs_r())
+    for act in ("FigAdd", "FigRestore", "EndRender", "EndMerge"):
+        if rcv.coverage.get(act, (0, 0))[0] == 0:
+            raise tlc.MachineryFailure(f"Config (render): action {act} never taken (vacuous)")
+    ctx.add_tlc("Config_render_cov", rcv)
+    rd = tlc.run("Config", tlc.cfg(ctx, "cf_DevShallowCopy.cfg", {**rconsts, "DevShallowCopy": True, "MaxDocs": 1}, invariants=["GlobalImmutable"]),
+                 wd=ctx.wd, defs=_defs_r())
+    tlc.expect_violation(rd, "GlobalImmutable", "Config DevShallowCopy")
+    ctx.add_tlc("Config_DevShallowCopy", rd, "expected counterexample found")
+    rh = [rec["hist"] for rec in rr.records if "hist" in rec]
+    seqs = {n: [{"upd": [(u[0], (u[1][0], u[1][1])) for u in d["upd"]], "fm": d["fm"], "fig": d["fig"]} for d in h] for n, h in enumerate(rh)}
+    robs = run_render(ctx, seqs, "r")
+    for n, h in enumerate(rh):
+        obs = robs.get(n)
+        case = {"leg": "R-render", "documents": [doc_text(d, f"{n}-{k}") for k, d in enumerate(seqs[n])], "conf": CONF_R}
+        if obs is None or isinstance(obs, dict):
+            ctx.violation(f"Sphinx build of a generated project failed: {(obs or {}).get('error')}", case)
+            continue
+        ctx.count(("render", repr(seqs[n])), nontrivial=any(d["fig"] for d in seqs[n]))
+        ctx.traces_validated += 1
+        for k, (d, o) in enumerate(zip(h, obs)):
+            exp = {"fs": list(d["eff"]["fs"]), "fb": list(d["eff"]["fb"])}
+            if o["G"]["fs"] != ["canon", 1] or o["G"]["fb"] != ["canon", 1] or not o["G"]["rest"]:
+                ctx.violation(f"the global configuration was modified by reading document {k + 1} "
+                              f"(front matter: {d['fm']}, figure-md: {d['fig']}): enable_extensions is now {o['G']['fs']}", case)
+                break
+            if o["eff"] != exp:
+                ctx.violation(f"document {k + 1}: effective configuration seen through its rendering differs: expected {exp}, observed {o['eff']} "
+                              f"([form, value id]; 1 = the global value, 2 = the front-matter value, +100 = html_image on)", case)
+                break
+            if o["warns"] != d["warns"]:
+                ctx.violation(f"document {k + 1}: expected {d['warns']} [myst.topmatter] warning(s), observed {o['warns']}", case)
+                break
+            if o["figure"] != d["fig"]:
+                ctx.violation(f"document {k + 1}: figure-md body {'not ' if d['fig'] else ''}rendered as an image", case)
+                break
+    ctx.leg("R-render", behaviours=len(rh))
+    # V: longer random sequences through Sphinx, validated by ConfigTrace (WithRender)
+    vseqs = {}
+    for t in range(40 if quick else 600):
+        seq = []
+        for _ in range(rnd.randint(3, 7)):
+            fm = rnd.random() < 0.6
+            upd = [rnd.choice(UPD_R)] if fm and rnd.random() < 0.7 else []
+            if fm and len(upd) == 1 and rnd.random() < 0.3:
+                u2 = rnd.choice(UPD_R)
+                if u2[0] != upd[0][0]:
+                    upd.append(u2)
+            seq.append({"upd": upd, "fm": fm, "fig": rnd.random() < 0.4})
+        vseqs[t] = seq
+    vobs = run_render(ctx, vseqs, "v")
+    rtraces = []
+    for t, seq in vseqs.items():
+        obs = vobs.get(t)
+        if obs is None or isinstance(obs, dict):
+            ctx.violation(f"Sphinx build of a generated project failed: {(obs or {}).get('error')}",
+                          {"leg": "V-render", "documents": [doc_text(d, f"{t}-{k}") for k, d in enumerate(seq)]})
+            continue
+        ctx.count(("vrender", t))
+        rtraces.append({"id": t, "docs": [{"upd": [[f, [v[0], v[1]]] for f, v in d["upd"]], "fm": d["fm"], "fig": d["fig"], "obs": ["fs", "fb"],
+                                           "eff": o["eff"], "warns": o["warns"],
+                                           "G": {"fs": o["G"]["fs"] if o["G"]["rest"] else ["other", 0], "fb": o["G"]["fb"]}} for d, o in zip(seq, obs)]})
+    tfr = ctx.wd / "cf_rtraces.ndjson"
+    tlc.write_ndjson(tfr, rtraces)
+    rvr = tlc.run("ConfigTrace", tlc.cfg(ctx, "cf_rtrace.cfg", {**rconsts, "MaxDocs": 100, "MaxUpd": 0}, spec="TraceSpec",
+                                         invariants=["Verdict", "GlobalImmutable", "EffectRule", "Normalised", "NoLeak"]),
+                  wd=ctx.wd, env={"TRACE_FILE": str(tfr)}, timeout=3000, defs=_defs_r())
+    tlc.expect_holds(rvr, "ConfigTrace (render): S on the traced runs")
+    ctx.add_tlc("ConfigTrace_render", rvr)
+    rvr.records = [x for x in rvr.records if "id" in x]
+    if len(rvr.records) != len(rtraces):
+        raise tlc.MachineryFailure(f"ConfigTrace (render): {len(rvr.records)} verdicts for {len(rtraces)} traces")
+    for v in rvr.records:
+        ctx.traces_validated += 1
+        for n, sn in enumerate(v["seen"]):
+            if not (sn["eff"] and sn["warns"] and sn["global"]):
+                what = [k for k in ("eff", "warns", "global") if not sn[k]]
+                ctx.violation(f"recorded Sphinx build is not a behaviour of the config model: document {n + 1}: {what} differ "
+                              f"(eff = effective configuration seen through the rendering, global = env.myst_config after the document)",
+                              {"leg": "V-render", "documents": [doc_text(d, f"{v['id']}-{k}") for k, d in enumerate(vseqs[v["id"]])],
+                               "observed": [t for t in rtraces if t["id"] == v["id"]][0]["docs"][n]})
+                break
+    ctx.leg("V-render", traces=len(rtraces))
     ctx.exhaustive = True
 
 
